@@ -115,6 +115,12 @@ def run_case(case, ctx):
             dir_ids.append(obj.hash_info.value)
             if cache is not None:
                 ops.stage_transfer(cache, src)
+            # plus loose objects in the SAME fan-out directory ('00') that belong to no tree: an unused object
+            # next to files that are used only through a directory
+            for j in range(case["zeros"], min(case["zeros"] + 3, len(zeros()))):
+                p = os.path.join(d, f"loosez{j}")
+                gen.write_file(p, zeros()[j])
+                ops.stage_transfer(odb2, p)
         for i, c in enumerate(case["loose"]):
             p = os.path.join(d, f"loose{i}")
             gen.write_file(p, gen.content_bytes(c))
